@@ -33,6 +33,9 @@ def applyPatch (bs : Bytes) (patch : String) (entries : List (Nat × Nat)) : Byt
   | ["zero12", b, p, v] =>
     let (off, len) := entries.getD (b.toNat?.getD 0) (0, 0)
     setAt (zeroRange bs (off + len - 12) (off + len)) (off + p.toNat?.getD 0) (UInt8.ofNat (v.toNat?.getD 0))
+  | ["settype", b, v] =>
+    let (off, len) := entries.getD (b.toNat?.getD 0) (0, 0)
+    bs.take (off + len - 16) ++ beBytes 4 (v.toNat?.getD 0) ++ bs.drop (off + len - 12)
   | ["cnt", v] => bs.take (n - 20) ++ beBytes 8 (v.toNat?.getD 0) ++ bs.drop (n - 12)
   | ["zero12i", p, v] => setAt (zeroRange bs (n - 12) n) (p.toNat?.getD 0) (UInt8.ofNat (v.toNat?.getD 0))
   | _ => bs
